@@ -976,7 +976,7 @@ pub fn hostile(trace: &[Value]) -> Vec<Value> {
     let mut panic = false;
     let mut stepbound = false;
     let mut closev: i64 = -1;
-    let mut maxq = [0i64; 6];
+    let mut maxq = [0i64; 7];
     let mut by_done = true;
     let mut accept_err = json!("none");
     let mut read_after = 0i64;
@@ -1025,8 +1025,12 @@ pub fn hostile(trace: &[Value]) -> Vec<Value> {
                     let sp2 = &p["sp"][2];
                     let vals = [sp2["pretire"].as_i64().unwrap_or(0), sp2["pack"].as_i64().unwrap_or(0),
                         p["streams"]["nrecv"].as_i64().unwrap_or(0), p["streams"]["nsend"].as_i64().unwrap_or(0),
-                        p["dgi"].as_i64().unwrap_or(0), sp2["nlost"].as_i64().unwrap_or(0)];
-                    for i in 0..6 { maxq[i] = maxq[i].max(vals[i]); }
+                        p["dgi"].as_i64().unwrap_or(0), sp2["nlost"].as_i64().unwrap_or(0),
+                        // memory a stream's reassembly buffer holds beyond the span of its unread data
+                        p["streams"]["recv"].as_array().map_or(0, |a| a.iter().map(|r| {
+                            r["alloc"].as_i64().unwrap_or(0) - (r["end"].as_i64().unwrap_or(0) - r["br"].as_i64().unwrap_or(0))
+                        }).max().unwrap_or(0).max(0))];
+                    for i in 0..7 { maxq[i] = maxq[i].max(vals[i]); }
                 }
             }
         }
